@@ -101,6 +101,9 @@ class Degenerate:
             t.attrs["mathvariant"] = r.choice(VARIANTS)
         if r.random() < 0.04:
             t.attrs[r.choice(["mathcolor", "class", "data-foo", "stretchy", "form", "lspace"])] = r.choice(["red", "a&b", "x<y", "true", "prefix", "it's \"q\""])
+        if r.random() < 0.03:
+            # class names as MathJax and other renderers write them (the library strips some of them from the string before parsing)
+            t.attrs["class"] = r.choice(["MJX-TeXAtom-ORD", "var", "mjx-char MJX-TeXAtom-ORD", "var MJX-variable", "MathJax", "mjx-n", "x MJX-y z"])
         return t
 
     PIECES = list("abfxyzAB12") + ["′", "'", "″", ".", "..", "-", "−", "|", "_", ":", ",", "!", "=", "+", " ", " ", "…", "°", "*", "^", "~", "π", "dx", "sin", "--", "(", ")", "(", ")"]
